@@ -326,6 +326,10 @@ def breaker_docs(ver, filler, k):
         for v3 in ('NA', '[1]', '{a:1}', '<<ver:"2.0"\nx\n1\n>>', 'Foo("x")', '[]', '{}'):
             yield '3.0-construct-under-2.0', '\n'.join(['ver:"2.0"', 'a,b', '%s,1' % v3, ''])
             yield '3.0-construct-under-2.0', '\n'.join(['ver:"2.0" m:%s' % v3, 'a', '1', ''])
+        # ... and under the 2.0 label of a grid nested in a 3.0 document (cell, list member)
+        for v3 in ('NA', '[1]', '{a:1}', 'Foo("x")', '<<ver:"2.0"\ny\n1\n>>'):
+            yield '3.0-construct-under-2.0', '\n'.join([head, 'a,b', '<<ver:"2.0"\nx\n%s\n>>,1' % v3, ''])
+            yield '3.0-construct-under-2.0', '\n'.join([head, 'a,b', '1,[<<ver:"2.0"\nx,y\n1,%s\n>>]' % v3, ''])
 
 
 BOUNDARY_SCALARS = [
